@@ -19,6 +19,14 @@ theorem LinFLeaf.defaultDescribed (l : LinFLeaf) (h : l.ok) (dv : IVal) (om : Bo
     Described3 (l.defaultComp dv om) false :=
   .convDefault _ _ _ _ _ _ _ h.1 h.2.1 (l.convOk h) (fun e => by rw [hom e])
 
+theorem IdLeaf.described (l : IdLeaf) (h : l.ok) : Described3 l.comp false :=
+  .convLeaf _ _ _ _ _ h.1 h.2.1 (l.convOk h)
+theorem IdLeaf.constDescribed (l : IdLeaf) (h : l.ok) (supplied : Bool) : Described3 (l.constComp supplied) false :=
+  .convPhysConst _ _ _ _ _ supplied h.1 h.2.1 (l.convOk h) (pvalEq_atom_self _) (pvalEq_atom_self _)
+theorem IdLeaf.defaultDescribed (l : IdLeaf) (h : l.ok) (dv : IVal) (om : Bool) (hom : om = true → l.v = dv) :
+    Described3 (l.defaultComp dv om) false :=
+  .convDefault _ _ _ _ _ _ _ h.1 h.2.1 (l.convOk h) (fun e => by rw [hom e])
+
 theorem DtcLinLeaf.described (l : DtcLinLeaf) (h : l.ok) (sup : PVal) (hs : l.supOk sup) : Described3 (l.comp sup) false :=
   .convLeaf _ _ _ _ _ h.1 h.2.1 (l.convOk h sup hs)
 theorem DtcLinLeaf.constDescribed (l : DtcLinLeaf) (h : l.ok) (supplied : Bool) : Described3 (l.constComp supplied) false :=
